@@ -195,6 +195,8 @@ func (d *duplexHTTPCall) CloseRead() error {
 		return nil
 	}
 	if err := discard(d.response.Body); err != nil {
+		// The body is closed whether or not it could be drained.
+		_ = d.response.Body.Close()
 		// As in Read: if the call has already failed (its context ended and
 		// SetError closed the request body under the transport), that first
 		// error is the one to report.
